@@ -23,7 +23,10 @@ import (
 type Item struct {
 	Src string  `json:"src"`
 	Ctx tree.ID `json:"ctx"`
+	Var int     `json:"var,omitempty"` // data variant: the same shape of tree with other values and other leafref targets
 }
+
+const nVariants = 3
 
 type Op struct {
 	Kind string `json:"kind"` // compile | run | run3
@@ -63,7 +66,8 @@ func genItem(t *rapid.T) Item {
 	case 5:
 		return Item{Src: broken[rapid.IntRange(0, len(broken)-1).Draw(t, "broken")], Ctx: tree.ID{}}
 	default:
-		fns := []string{"concat(a, 'x')", "string-length(../b) > 2", "not(contains(a[k='v']/b, 'z'))", "substring(current()/../c, 1, 3)", "translate(a,'ab','ba')", "round(1.5) + floor(a)"}
+		fns := []string{"concat(a, 'x')", "string-length(../b) > 2", "not(contains(a[k='v']/b, 'z'))", "substring(current()/../c, 1, 3)", "translate(a,'ab','ba')", "round(1.5) + floor(a)",
+			"deref(a)/../b", "deref(../r)/../c[id = ../x]/w", "deref(current()/ref)/../mtu", "concat(deref(a)/../b, deref(b)/../a)", "/if[name = current()/../n]/mtu"}
 		return Item{Src: fns[rapid.IntRange(0, len(fns)-1).Draw(t, "fnexpr")], Ctx: tree.ID{{Name: "l", Keys: map[string]string{"k": "1"}}}}
 	}
 }
@@ -95,6 +99,15 @@ type outcome struct {
 
 func runMachine(m *xpath.Machine, it Item) string {
 	tr := &tree.Tree{NoRecord: true}
+	if it.Var != 0 {
+		// an independent data tree of the same shape: what a node holds and where a leafref points differ
+		tr.ValueOf = func(id tree.ID) (xpath.Datum, error) {
+			return xpath.NewLiteralDatum(fmt.Sprintf("v%d:%s", it.Var, id)), nil
+		}
+		tr.LeafRefOf = func(id tree.ID) tree.ID {
+			return tree.ID{{Name: "lr"}, {Name: "target", Keys: map[string]string{"from": id.String(), "variant": fmt.Sprint(it.Var)}}}
+		}
+	}
 	res := xpath.NewCtxFromCurrent(context.Background(), m, tr.At(it.Ctx)).SetDebug(len(it.Src)%4 == 0).Run()
 	if err := res.GetError(); err != nil {
 		return "error: " + err.Error()
@@ -149,8 +162,14 @@ func checkCase(c Case) fw.Outcome {
 	for rep := 0; rep < reps; rep++ {
 		// isolated oracle: each expression compiled and run alone
 		want := make([]outcome, len(c.Pool))
+		wantVar := make([][nVariants]string, len(c.Pool)) // the result on each data variant
 		for i, it := range c.Pool {
 			want[i], _ = isolated(it)
+			for v := 0; v < nVariants; v++ {
+				it.Var = v
+				o, _ := isolated(it)
+				wantVar[i][v] = o.result
+			}
 		}
 		if c.ColdStart {
 			xpath.VerifResetPluginState()
@@ -193,6 +212,9 @@ func checkCase(c Case) fw.Outcome {
 				<-start
 				for _, op := range ops {
 					it := c.Pool[op.Item]
+					// goroutines run the shared machines on different data variants: independent contexts
+					vit := it
+					vit.Var = (it.Var + g) % nVariants
 					switch op.Kind {
 					case "compile":
 						got, _ := isolated(it)
@@ -201,8 +223,8 @@ func checkCase(c Case) fw.Outcome {
 						}
 					case "run":
 						if m := machines[op.Item]; m != nil {
-							if got := runMachine(m, it); got != want[op.Item].result {
-								report(fmt.Sprintf("goroutine %d: shared machine %q returned %q, in isolation %q", g, it.Src, got, want[op.Item].result))
+							if got := runMachine(m, vit); got != wantVar[op.Item][vit.Var] {
+								report(fmt.Sprintf("goroutine %d: shared machine %q on data variant %d returned %q, in isolation %q", g, it.Src, vit.Var, got, wantVar[op.Item][vit.Var]))
 							}
 						} else if want[op.Item].compileErr == "" {
 							report(fmt.Sprintf("%q compiled in isolation but not in the shared pool", it.Src))
@@ -213,12 +235,16 @@ func checkCase(c Case) fw.Outcome {
 						if m == nil {
 							continue
 						}
-						other := Item{Src: it.Src, Ctx: c.Pool[op.Alt].Ctx}
-						first := runMachine(m, it)
+						// the other context: another node, or the same node in another data variant
+						other := Item{Src: it.Src, Ctx: c.Pool[op.Alt].Ctx, Var: vit.Var}
+						if op.Alt%2 == 1 {
+							other = Item{Src: it.Src, Ctx: it.Ctx, Var: (vit.Var + 1) % nVariants}
+						}
+						first := runMachine(m, vit)
 						_ = runMachine(m, other)
-						third := runMachine(m, it)
-						if first != want[op.Item].result || third != want[op.Item].result {
-							report(fmt.Sprintf("goroutine %d: history changes result of %q: first %q third %q isolated %q", g, it.Src, first, third, want[op.Item].result))
+						third := runMachine(m, vit)
+						if w := wantVar[op.Item][vit.Var]; first != w || third != w {
+							report(fmt.Sprintf("goroutine %d: history changes result of %q on data variant %d: first %q third %q isolated %q", g, it.Src, vit.Var, first, third, w))
 						}
 					}
 				}
@@ -243,7 +269,8 @@ func checkCase(c Case) fw.Outcome {
 var conc = fw.Register(&fw.Prop[Case]{
 	ID: "C06", Name: "concurrent",
 	Rule: "a pool of 4-12 expressions (C01/C02/C03 generators, function-heavy expressions, some that do not compile), each with an isolated oracle result, " +
-		"and a schedule of 2-16 goroutines with generated operation lists (compile+run a pool item; run a shared machine on a fresh context; run a shared machine on alternating contexts t,u,t); " +
+		"and a schedule of 2-16 goroutines with generated operation lists (compile+run a pool item; run a shared machine on a fresh context; run a shared machine on alternating contexts t,u,t, u being another node or the same node in a data tree with other values and leafref targets; " +
+		"each goroutine works on its own data variant); " +
 		"half the cases re-arm the lazy plugin load (verif hook) and compile the shared machines concurrently (cold start); each schedule is executed 3 times; " +
 		"oracle: every result equals the isolated result, and the binary is built with -race (any report kills the shard and the journaled schedule becomes the replay); " +
 		"non-trivial = at least 2 goroutines run the same shared machine while at least one other goroutine compiles",
